@@ -6,17 +6,19 @@ ID=$1; PROP=$2; WT=$3; PATCH=$4; DEMO=$5; shift 5; XF="$*"
 OUT=/verif/seeded/$ID; mkdir -p $OUT
 cp $PATCH $OUT/patch.diff; cp $DEMO $OUT/demo.cpp
 cd $WT && git checkout -q -- include src 2>/dev/null
-g++ -std=c++20 -I include $XF $OUT/demo.cpp -o /tmp/seed_demo_clean >/dev/null 2>&1 && /tmp/seed_demo_clean >/dev/null 2>&1; CLEAN=$?
+g++ -std=c++20 -I include $XF $OUT/demo.cpp -o /tmp/seed_demo_clean_$ID >/dev/null 2>&1 && timeout 120 /tmp/seed_demo_clean_$ID >/dev/null 2>&1; CLEAN=$?
 git apply $OUT/patch.diff || { echo "patch does not apply"; exit 3; }
 [ -d _build ] || cmake -G Ninja -S . -B _build -DTULZ_ENABLE_TESTS=ON -DFETCHCONTENT_SOURCE_DIR_GOOGLETEST=/usr/src/googletest -DCMAKE_BUILD_TYPE=RelWithDebInfo >/dev/null 2>&1
 cmake --build _build >/dev/null 2>&1; BUILD=$?
 TESTS=$(ctest --test-dir _build -j8 --timeout 900 2>&1 | grep "tests passed\|tests failed" | head -1)
-g++ -std=c++20 -I include $XF $OUT/demo.cpp -o /tmp/seed_demo_mut >/dev/null 2>&1 && /tmp/seed_demo_mut >/dev/null 2>&1; MUT=$?
+g++ -std=c++20 -I include $XF $OUT/demo.cpp -o /tmp/seed_demo_mut_$ID >/dev/null 2>&1 && timeout 120 /tmp/seed_demo_mut_$ID >/dev/null 2>&1; MUT=$?
 echo "build=$BUILD tests='$TESTS' demo_clean_exit=$CLEAN demo_patched_exit=$MUT"
+if [ -n "${SKIP_CHECK:-}" ]; then echo "build=$BUILD tests='$TESTS' demo_clean_exit=$CLEAN demo_patched_exit=$MUT" > $OUT/confirm.txt; cd $WT && git checkout -q -- include src; exit 0; fi
 cd /verif && TULZ_REPO=$WT ./check $PROP > $OUT/check_output.txt 2>&1; RC=$?
 grep "VIOLATION\|FAILED-OBLIGATION\|OK property\|UNDECIDED\|KNOWN" $OUT/check_output.txt | cut -c1-260 | head -12
 echo "check_exit=$RC"
 cd $WT && git checkout -q -- include src
+rm -f /tmp/seed_demo_clean_$ID /tmp/seed_demo_mut_$ID
 cat > $OUT/run.txt <<EOT
 build=$BUILD tests='$TESTS' demo_clean_exit=$CLEAN demo_patched_exit=$MUT check_exit=$RC
 EOT
